@@ -289,7 +289,7 @@ theorem atxTail_s2 {src k ls p} {sA sB : St} (h : SR src k ls p sA sB) (start st
       simp only [shK, segA, Segment.mk.injEq, and_true]
       omega
     rw [e]
-    refine S2.bind (appendLine_s2 h1 n hseg) (fun _ _ sA2 sB2 h2 => ?_)
+    refine S2.bind (appendLine_s2 h1 n hseg (.inl (by simp only; omega))) (fun _ _ sA2 sB2 h2 => ?_)
     exact S2.pure ⟨⟨rfl, .inr ⟨n, hn0, rfl, rfl⟩⟩, p, Nat.le_refl _, h2⟩
   · rw [if_neg hc, if_neg hc]
     exact S2.pure ⟨⟨rfl, .inr ⟨n, hn0, rfl, rfl⟩⟩, p, Nat.le_refl _, h1⟩
